@@ -414,6 +414,7 @@ func init() {
 				j += p.Value
 				if len(p.String()) > 4096 {
 					c.violation("C10", "session cookie (part) exceeds 4096 bytes", map[string]interface{}{"name_len": len(name), "len": len(p.String()), "raw_len": raw})
+					c.violation("C18", "a session cookie serialises to more than 4096 bytes", map[string]interface{}{"name_len": len(name), "len": len(p.String()), "raw_len": raw, "attribute_overhead": A})
 				}
 			}
 			if len(cs) < 1 || j != signed {
@@ -433,7 +434,10 @@ func init() {
 					t1 := rawAt(max - len(name) - 1 - A)
 					t2 := rawAt(2*(max-len(name)-3-A) + 0)
 					now := time.Unix(1700000000+int64(ai), 0)
-					for _, t := range []int{t1, t2} {
+					// t3/t4: the VALUE alone reaches the budget / the browser limit (a store that measured the value
+					// instead of the whole cookie would still write one cookie here, larger than 4096 bytes with a long name)
+					t3, t4 := rawAt(max), rawAt(4096-len(name)-1-A)
+					for _, t := range []int{t1, t2, t3, t4, (t1 + t3) / 2} {
 						for d := -9; d <= 9; d++ {
 							if t+d > 0 {
 								makeCase(name, at, t+d, now)
